@@ -61,6 +61,7 @@ CONSTANTS
   SigLen,          \* sweeps: signature length of the policy (32: HMAC-SHA256, 20: HMAC-SHA1)
   \* deviation flags of the receiver under verification (rc) ...
   Dev_NoSeqCheck, Dev_MergeDupFilter, Dev_ShortChunkPanics, Dev_PerRequestBound,
+  Dev_ResetSeqOnRenew,   \* the receiver starts a new sequence window when the token is renewed
   \* ... and of the as-is receiver (ra) that is fed the same inputs in generation runs, so that
   \* one behaviour carries both the contract outcome and the outcome of the code as it is
   AsIs_NoSeqCheck, AsIs_MergeDupFilter, AsIs_ShortChunkPanics, AsIs_PerRequestBound
@@ -76,6 +77,7 @@ VARIABLES
   sentN,           \* message -> chunks handed to the wire so far
   nextSeq,         \* sender: next sequence number
   wire,            \* base stream so far (what the sender wrote), for replay
+  renewed,         \* the token has been renewed in this behaviour
   held,            \* chunk held back by the adversary (<<>>: none, <<c>>), heldAge = chunks passed meanwhile
   heldAge,
   budget,
@@ -90,7 +92,7 @@ VARIABLES
   hist             \* history of inputs with both outcomes
 
 sender   == <<plan, sp, mode, sw, sentN, nextSeq, wire>>
-advers   == <<held, heldAge, budget>>
+advers   == <<held, heldAge, budget, renewed>>
 vars     == <<sender, advers, rc, ra, hist>>
 view     == <<sender, advers, rc>>
 
@@ -125,7 +127,7 @@ Init ==
   /\ sentN = [m \in 1..Len(plan) |-> 0]
   /\ nextSeq = sp.first
   /\ wire = <<>>
-  /\ held = <<>> /\ heldAge = 0
+  /\ held = <<>> /\ heldAge = 0 /\ renewed = FALSE
   /\ budget = Budget
   /\ rc = RInit(plan) /\ ra = RInit(plan)
   /\ hist = <<>>
@@ -251,32 +253,48 @@ Age == heldAge' = IF held = <<>> THEN 0 ELSE heldAge + 1
 Pass(m)   == /\ Alive /\ CanSend(m) /\ Advance(m)
              /\ (ForceDamage => budget = 0)
              /\ Recv(Chunk(m), "none", "pass")
-             /\ Age /\ UNCHANGED <<held, budget>>
+             /\ Age /\ UNCHANGED <<held, budget, renewed>>
 
 Damage(m, d) == /\ Alive /\ "damage" \in Moves /\ budget > 0 /\ CanSend(m) /\ Advance(m)
                 /\ d \in Damages /\ (ForceDamage => d = sw.kind)
                 /\ Recv(Chunk(m), d, "damage")
-                /\ budget' = budget - 1 /\ Age /\ UNCHANGED held
+                /\ budget' = budget - 1 /\ Age /\ UNCHANGED <<held, renewed>>
 
 Drop(m)   == /\ Alive /\ "drop" \in Moves /\ GapMovesOK /\ budget > 0 /\ CanSend(m) /\ Advance(m)
              /\ NoRecv(Chunk(m), "drop")
-             /\ budget' = budget - 1 /\ Age /\ UNCHANGED held
+             /\ budget' = budget - 1 /\ Age /\ UNCHANGED <<held, renewed>>
 
 Hold(m)   == /\ Alive /\ "hold" \in Moves /\ GapMovesOK /\ budget > 0 /\ held = <<>> /\ CanSend(m) /\ Advance(m)
              /\ held' = <<Chunk(m)>> /\ heldAge' = 0
              /\ NoRecv(Chunk(m), "hold")
-             /\ budget' = budget - 1
+             /\ budget' = budget - 1 /\ UNCHANGED renewed
 
 \* the held chunk arrives after at least one later chunk
 Release   == /\ Alive /\ held # <<>> /\ heldAge > 0
              /\ Recv(held[1], "none", "reorder")
-             /\ held' = <<>> /\ heldAge' = 0 /\ UNCHANGED <<sender, budget>>
+             /\ held' = <<>> /\ heldAge' = 0 /\ UNCHANGED <<sender, budget, renewed>>
+
+\* The token is renewed between two messages ("renew" in Moves, at most once).  The OPN exchange
+\* takes one sequence number of the stream's direction; numbering continues (Part 6: the sequence
+\* number is not reset when a token is renewed), the old token stays valid for its lifetime, so a
+\* copy of a chunk sent before the renewal still verifies -- and must still be refused.
+RenewTok == /\ Alive /\ "renew" \in Moves /\ ~renewed
+            /\ wire # <<>> /\ \E m \in Msgs : CanSend(m)
+            /\ \A m \in Msgs : ~InProgress(m)
+            /\ renewed' = TRUE
+            /\ nextSeq' = IF nextSeq = sp.wrapAfter THEN sp.wrapTo ELSE IF nextSeq = -1 THEN 0 ELSE nextSeq + 1
+            /\ rc' = IF Dev_ResetSeqOnRenew THEN [rc EXCEPT !.lastSeq = None] ELSE rc
+            /\ UNCHANGED ra
+            /\ hist' = Append(hist, [in |-> "renew", id |-> Len(wire), dmg |-> "none", kind |-> "-", req |-> 0, seq |-> nextSeq,
+                                     expect |-> "none", asis |-> "none", parts |-> <<>>, whole |-> FALSE,
+                                     asis_parts |-> <<>>, asis_whole |-> FALSE])
+            /\ Age /\ UNCHANGED <<plan, sp, mode, sw, sentN, wire, held, budget>>
 
 \* a verbatim copy of a chunk the receiver has already been shown
 Replay(j) == /\ Alive /\ "replay" \in Moves /\ budget > 0
              /\ j \in 1..Len(wire) /\ (held # <<>> => held[1].id # j)
              /\ Recv(wire[j], "none", "replay")
-             /\ budget' = budget - 1 /\ Age /\ UNCHANGED <<sender, held>>
+             /\ budget' = budget - 1 /\ Age /\ UNCHANGED <<sender, held, renewed>>
 
 \* a frame of the adversary's own making (an OPN frame naming the policy None, a frame of an unknown
 \* type ...) between two chunks of the stream: refused, and it must not change what happens to
@@ -285,9 +303,10 @@ Pseudo(g) == [id |-> 0, seq |-> 0, req |-> 0, msg |-> 0, part |-> 0, kind |-> "X
 Inject(g) == /\ Alive /\ "inject" \in Moves /\ budget > 0 /\ g \in Injects
              /\ \E m \in Msgs : CanSend(m)             \* not after the last chunk
              /\ Recv(Pseudo(g), g, "inject")
-             /\ budget' = budget - 1 /\ Age /\ UNCHANGED <<sender, held>>
+             /\ budget' = budget - 1 /\ Age /\ UNCHANGED <<sender, held, renewed>>
 
-Next == \/ \E g \in Injects : Inject(g)
+Next == \/ RenewTok
+        \/ \E g \in Injects : Inject(g)
         \/ \E m \in Msgs : Pass(m) \/ Drop(m) \/ Hold(m) \/ \E d \in Damages : Damage(m, d)
         \/ Release
         \/ \E j \in 1..Len(wire) : Replay(j)
@@ -336,11 +355,14 @@ InvReassembly ==
 StepSeqMonotone == [][rc.lastSeq' = rc.lastSeq \/ SeqFollows(rc.lastSeq, rc.lastSeq')]_vars
 
 \* the sender is conforming: consecutive chunks differ by one or wrap legally
+SuccSeq(x) == IF x = sp.wrapAfter THEN sp.wrapTo ELSE IF x = -1 THEN 0 ELSE x + 1
 InvSenderConforms ==
-  \A i \in 1..Len(wire) - 1 :
-     \/ wire[i + 1].seq = wire[i].seq + 1
-     \/ (wire[i].seq = -1 /\ wire[i + 1].seq = 0)
-     \/ (HighZone(wire[i].seq) /\ LowZone(wire[i + 1].seq))
+  \* the wrap the sender performs is one Part 6 allows ...
+  /\ sp.wrapAfter = NoWrap \/ (HighZone(sp.wrapAfter) /\ LowZone(sp.wrapTo))
+  \* ... and consecutive chunks carry consecutive numbers (the OPN chunk of a renewal takes one)
+  /\ \A i \in 1..Len(wire) - 1 :
+       \/ wire[i + 1].seq = SuccSeq(wire[i].seq)
+       \/ (renewed /\ wire[i + 1].seq = SuccSeq(SuccSeq(wire[i].seq)))
 
 ---------------------------------------------------------------------------
 \* behaviour emission (generation configs only)
